@@ -7,7 +7,7 @@ import (
 	"unsafe"
 	//"github.com/metrico/qryn/writer/fingerprints_limiter"
 	"github.com/metrico/qryn/writer/model"
-	//customErrors "github.com/metrico/qryn/writer/utils/errors"
+	customErrors "github.com/metrico/qryn/writer/utils/errors"
 	"github.com/metrico/qryn/writer/utils/logger"
 	"github.com/metrico/qryn/writer/utils/numbercache"
 	"google.golang.org/protobuf/proto"
@@ -363,6 +363,11 @@ func (p *parserDoer) onEntries(labels [][]string, timestampsNS []int64,
 
 func (p *parserDoer) onSpan(traceId []byte, spanId []byte, timestampNs int64, durationNs int64,
 	parentId string, name string, serviceName string, payload []byte, key []string, val []string) error {
+	// trace_id is FixedString(16) and span_id FixedString(8): any other width panics in the insert goroutine
+	if len(traceId) != 16 || len(spanId) != 8 {
+		return customErrors.New400Error(fmt.Sprintf(
+			"span rejected: trace id must be 16 bytes and span id 8 bytes, got %d and %d", len(traceId), len(spanId)))
+	}
 	p.spans.MTraceId = append(p.spans.MTraceId, traceId)
 	p.spans.MSpanId = append(p.spans.MSpanId, spanId)
 	p.spans.MTimestampNs = append(p.spans.MTimestampNs, timestampNs)
